@@ -144,7 +144,29 @@ class Interp:
             return set(out) if isinstance(e, ast.SetComp) else out
         if isinstance(e, ast.Call):
             return self._call(e)
+        if isinstance(e, ast.Lambda) and not (e.args.vararg or e.args.kwarg or e.args.kwonlyargs or e.args.defaults):
+            return self._lambda(e)
         raise Unmodelled(f"expression `{norm(e)[:60]}`")
+
+    def _lambda(self, e: ast.Lambda):
+        names = [a.arg for a in e.args.args]
+        missing = object()
+
+        def f(*vals):
+            if len(vals) != len(names):
+                raise ModelError("lambda called with the wrong number of arguments")
+            saved = {n: self.env.get(n, missing) for n in names}
+            try:
+                for n, v in zip(names, vals):
+                    self.env[n] = v
+                return self.ev(e.body)
+            finally:
+                for n, v in saved.items():
+                    if v is missing:
+                        self.env.pop(n, None)
+                    else:
+                        self.env[n] = v
+        return f
 
     def _index(self, s: ast.AST):
         if isinstance(s, ast.Slice):
@@ -175,8 +197,17 @@ class Interp:
                 return r
         if isinstance(c.func, ast.Name) and c.func.id in _PURE and not c.keywords:
             return self._guard(_PURE[c.func.id], *[self.ev(a) for a in c.args])
-        if isinstance(c.func, ast.Name) and c.func.id == "sorted" and all(k.arg == "reverse" for k in c.keywords):
-            return sorted(self.ev(c.args[0]), reverse=bool(self.ev(c.keywords[0].value)))
+        if isinstance(c.func, ast.Name) and c.func.id in ("sorted", "min", "max") and c.keywords and all(k.arg in ("reverse", "key") for k in c.keywords) \
+                and (c.func.id == "sorted" or all(k.arg == "key" for k in c.keywords)):
+            kw = {k.arg: self.ev(k.value) for k in c.keywords}
+            if "reverse" in kw:
+                kw["reverse"] = bool(kw["reverse"])
+            return self._guard(lambda *a: _PURE[c.func.id](*a, **kw), *[self.ev(a) for a in c.args])
+        if isinstance(c.func, ast.Attribute) and c.func.attr in ("keys", "values", "items") and not c.args and not c.keywords:
+            recv = self.ev(c.func.value)
+            if isinstance(recv, dict):
+                return list(getattr(recv, c.func.attr)())
+            raise Unmodelled(f"method `{c.func.attr}` on a value that is not a dict")
         if isinstance(c.func, ast.Attribute) and c.func.attr in _METHODS and not c.keywords:
             recv = self.ev(c.func.value)
             if not isinstance(recv, (list, set, tuple, dict)):
